@@ -227,6 +227,19 @@ def long_token_doc(kind, length, lead, e):
         linesv = ['T%05d' % i + 'klmnopqrst' * 149 for i in range(nl)] + ['fin']
         val = '\n'.join(linesv)
         body = "_long '''" + E.join(linesv) + "'''" + E
+    elif kind.startswith('astral'):
+        # supplementary characters throughout: a surrogate pair must never be torn by a buffer fill; `lead` is a number of
+        # padding characters here (it shifts every pair against the fill boundaries one unit at a time)
+        unit = 'abcdefghijklmno\U0001F600'
+        linesv = [(unit * 120)[:1900 + (i % 7)] for i in range(length // 1900)]
+        linesv = [l if not (0xd800 <= ord(l[-1]) <= 0xdbff) else l[:-1] for l in linesv]
+        val = '\n'.join(linesv)
+        head = '#\\#CIF_2.0' + E + 'data_b' + E + '#' + 'p' * lead + E
+        if kind == 'astral-quoted':
+            val = ''.join(linesv)           # one physical line: over-length, but its content is still the value
+            body = "_long '" + val + "'" + E
+        else:
+            body = ('_long' + E + ';' + E.join(linesv) + E + ';' + E) if kind == 'astral-text' else ("_long '''" + E.join(linesv) + "'''" + E)
     else:
         val = 'B' + 'uvw' * (length // 3)
         body = '_long ' + val + E
@@ -238,7 +251,7 @@ def work_long(chunk):
     out, n = [], 0
     for cell in chunk:
         doc, val = long_token_doc(*cell)
-        script = ['reset', 'bytes.set B0 %s' % doc.hex(), 'parse new:C0 B0', 'item.get H0 %s' % U('_long'), 'blk.get C0 %s H0' % U('b'), 'item.get H0 %s' % U('_long'), 'item.get H0 %s' % U('_after'), 'item.get H0 %s' % U('_i%d' % (cell[2] - 1) if cell[2] else '_after')]
+        script = ['reset', 'bytes.set B0 %s' % doc.hex(), 'parse new:C0 B0', 'item.get H0 %s' % U('_long'), 'blk.get C0 %s H0' % U('b'), 'item.get H0 %s' % U('_long'), 'item.get H0 %s' % U('_after'), 'item.get H0 %s' % U('_i%d' % (cell[2] - 1) if (cell[2] and not cell[0].startswith('astral')) else '_after')]
         try:
             a = ex.run(script, timeout=300)
         except Crash as c:
@@ -258,7 +271,7 @@ def work_long(chunk):
         n += 1
         got = a[5].get('v') if isinstance(a[5], dict) else None
         codes = sorted(set(e[0] for e in a[2].get('errs', []))) if isinstance(a[2], dict) else ['?']
-        expect_codes = [108] if cell[0] == 'bare' else []      # a bare token cannot be split over lines: over-length line, content unaffected
+        expect_codes = [108] if cell[0] in ('bare', 'astral-quoted') else []      # a bare token cannot be split over lines: over-length line, content unaffected
         if not got or got.get('t') != val or a[6].get('rc') != 0 or a[7].get('rc') != 0 or codes != expect_codes:
             gt = (got or {}).get('t') or ''
             i = next((j for j in range(min(len(gt), len(val))) if gt[j] != val[j]), min(len(gt), len(val)))
@@ -327,6 +340,7 @@ def main():
         sizes = [65599, 65601, 131199, 131201, 200000, 262401]
     longs = [(kind, L, lead, e) for kind in ('text', 'triple', 'bare') for L in sizes for lead in ((0, 40, 3000) if tier == 'quick' else (0, 1, 40, 300, 3000, 6000))
              for e in (('LF', 'CRLF') if tier == 'quick' else ('LF', 'CR', 'CRLF'))]
+    longs += [(kind, 140000, pad, e) for kind in ('astral-text', 'astral-triple', 'astral-quoted') for pad in range(0, 36 if tier == 'quick' else 140) for e in (('LF',) if tier == 'quick' else ('LF', 'CRLF'))]
     nlong = 0
     for res in pmap(work_long, chunked(longs, max(1, len(longs) // (NPROC * 3))), ()):
         if isinstance(res, dict):
@@ -339,7 +353,7 @@ def main():
     total += ntwo + nlong
     return rep.finish({'evaluations': total, 'distinct_nontrivial': len(PROBES) * len(STYLES) * len(bases) + ntwo + nlong, 'two_seam_documents': ntwo, 'long_token_documents': nlong,
                        'rule': '%d probe documents (every token kind, multi-unit constructs, text-field protocols, CIF 1.1 forms and 11 defect probes) x terminator styles %r x base offsets %r x paddings: quick = every padding that puts some byte of the probe on the next 4096-byte seam (+-8), thorough = every padding 0..4111; '
-                               'padding is comment lines of at most 2000 characters rendered in the same style; line numbers are compared after subtracting the known number of added lines. Plus: 864 documents with one terminator (LF / CR / CR LF) starting at offset 4096-2..+1 and one at 8192-2..+1, among items and inside a text field, all other terminators in each style (reference: the all-LF rendering of the same lines); plus single text-field / triple-quoted / bare tokens of 65500..400000 characters after 0..6000 leading items in each style, read back through the API and compared with the text that was generated. non-trivial = probe x style x base cells + those documents' % (len(PROBES), STYLES, bases),
+                               'padding is comment lines of at most 2000 characters rendered in the same style; line numbers are compared after subtracting the known number of added lines. Plus: 864 documents with one terminator (LF / CR / CR LF) starting at offset 4096-2..+1 and one at 8192-2..+1, among items and inside a text field, all other terminators in each style (reference: the all-LF rendering of the same lines); plus text fields and triple-quoted strings of 140000 units full of supplementary characters behind 0..35 (thorough 139) padding characters; plus single text-field / triple-quoted / bare tokens of 65500..400000 characters after 0..6000 leading items in each style, read back through the API and compared with the text that was generated. non-trivial = probe x style x base cells + those documents' % (len(PROBES), STYLES, bases),
                        'samples': [PROBES[1][2], PROBES[3][2]], 'exhaustive': True},
                       ['reference = the LF-only rendering without padding of the same probe, parsed by the same library'])
 
